@@ -91,3 +91,22 @@ Definition r_base_blocks (nr nc : nat) (rs cs : list (list nat * list nat)) (rb 
 
 Definition r_strand_base_subtotals (bases : list xq) (rs : list (list nat * list nat)) : list Z :=
   r_vec (strand_base_subtotals (vnth bases 0) (map mk_sub rs)).
+
+(* ---- C01, leg "pass-through with insertions" (harness/props/c01.py) ----------------------- *)
+(* the insertion blocks of a pass-through measure from the base block the implementation reports:
+   kind 0 = NanSubtotals (means, medians, stddev), 1 = sums (SumSubtotals, NaN differences in both
+   directions), 2 = counts (SumSubtotals with the cube measure's diff_nans flag [dn]) *)
+Definition r_pass_blocks (kind : nat) (dn : bool) (nr nc : nat) (rs cs : list (list nat * list nat))
+           (base : mat) : list Z :=
+  let rsubs := map mk_sub rs in
+  let csubs := map mk_sub cs in
+  r_ins3 (match kind with
+          | 0 => nan_blocks base nr nc rsubs csubs
+          | 1 => sum_blocks base nr nc rsubs csubs true true
+          | _ => count_blocks nr nc rsubs csubs base dn
+          end).
+Definition r_pass_strand (kind : nat) (v : list xq) (rs : list (list nat * list nat)) : list Z :=
+  r_vec (match kind with
+         | 0 => map (fun _ => NaN) rs
+         | _ => stripe_sum_subtotals v (map mk_sub rs)
+         end).
